@@ -350,7 +350,7 @@ pub fn run_c07(ctx: &Ctx) {
         }
     }
     let mut rng = Rng::new(ctx.seed ^ 0xC07);
-    let extra = if ctx.n > 0 { ctx.n } else if ctx.thorough { 4000 } else { 300 };
+    let extra = if ctx.n > 0 { ctx.n } else if ctx.thorough { 150000 } else { 300 };
     for _ in 0..extra {
         let arm = *rng.pick(&ARMS);
         let n = *rng.pick(&[0usize, 1, 2, 3, 5, 8]);
